@@ -39,6 +39,9 @@ pub enum COp {
     Flush,
     /// a read through get_many (commits the open transaction as a side effect)
     Read { d: u8 },
+    /// list the documents or the author keys of the store (another read path, which by its
+    /// documentation commits the open transaction as well)
+    List { authors: bool },
 }
 
 #[derive(Serialize, Deserialize, Clone, Debug)]
@@ -183,6 +186,7 @@ impl Scenario for Crash {
                 14 => COp::ImportCap { d, write: rng.chance(1, 2) },
                 15 => COp::Remove { d },
                 16 | 17 => COp::Flush,
+                18 => COp::List { authors: rng.chance(1, 2) },
                 _ => COp::Read { d },
             };
             ops.push(op);
@@ -420,6 +424,15 @@ async fn execute(plan: &CrashPlan, place: &[(usize, u32)], io_error: Option<(u64
                 }
                 states.push(m.clone());
             }
+            COp::List { authors } => {
+                let ok = if *authors { store.list_authors().map(|it| it.count()).is_ok() } else { store.list_namespaces().map(|it| it.count()).is_ok() };
+                if ok {
+                    flushed = Some(states.len() - 1);
+                } else {
+                    failed = true;
+                }
+                states.push(m.clone());
+            }
         }
         disarm_age();
         if failed {
@@ -457,6 +470,7 @@ fn classify(plan: &CrashPlan, k_in_progress: Option<usize>, placement: &[(usize,
         COp::Remove { .. } => "remove",
         COp::Flush => "flush",
         COp::Read { .. } => "read",
+        COp::List { .. } => "list",
     };
     let inprog = k_in_progress.map(opname).unwrap_or("none");
     let placed = if placement.is_empty() { "no-age-commit".to_string() } else { format!("age-commit-inside-{}", placement.iter().map(|(k, _)| opname(*k)).collect::<Vec<_>>().join("+")) };
